@@ -11,12 +11,10 @@ import TddaVerif.Lemmas.Discover
 namespace TddaVerif.Props.C07
 open TddaVerif.Constraints TddaVerif.Props.C02
 
-/-- discovery succeeds on every well-typed column with at least one record, and on empty
-    columns unless regular expressions are requested for a string column (the recorded C01 defect) -/
-theorem discover_total (incRex : Bool) (rexOf : List Val → List Nat) (c : Column) (hwf : c.WF = true)
-    (h : 0 < c.cells.length ∨ incRex = false ∨ c.ftype ≠ .string) :
+/-- discovery succeeds on every well-typed column, including columns with no records -/
+theorem discover_total (incRex : Bool) (rexOf : List Val → List Nat) (c : Column) (hwf : c.WF = true) :
     ∃ ks, discoverField incRex rexOf c c.cells.length = .ok (some ks) :=
-  Lemmas.discover_total incRex rexOf c hwf h
+  Lemmas.discover_total incRex rexOf c hwf
 
 /-- the field type is the column's type, reported first and once -/
 theorem type_is_column_type (incRex : Bool) (rexOf : List Val → List Nat) (c : Column) (n : Nat)
@@ -25,10 +23,12 @@ theorem type_is_column_type (incRex : Bool) (rexOf : List Val → List Nat) (c :
     ∀ ts, Constraint.type ts ∈ ks → ts = some [c.ftype] :=
   Lemmas.type_is_column_type incRex rexOf c n ks h
 
-/-- nothing but the type is discovered for data that is absent -/
+/-- nothing but the type is discovered for data that is absent (plus, on request, the regular
+    expressions of no examples) -/
 theorem nothing_for_absent (incRex : Bool) (rexOf : List Val → List Nat) (c : Column)
     (ks : List Constraint) (h : discoverField incRex rexOf c 0 = .ok (some ks)) :
-    ks = [.type (some [c.ftype])] :=
+    ks = .type (some [c.ftype]) ::
+          (if c.ftype == .string && incRex then [Constraint.rex (some (rexOf []))] else []) :=
   Lemmas.nothing_for_absent incRex rexOf c ks h
 
 /-- min is attained by some record and is below every non-null value; it is reported exactly
